@@ -72,14 +72,21 @@ SPECS = [
 ]
 
 
+def _scribble():
+  """What gin.current_scope() hands out belongs to the caller: a callee that edits it changes nothing in Gin."""
+  sc = gin.current_scope()
+  sc.append('s')
+  sc.insert(0, 't')
+
+
 def _mk_fn(name, sig, names, varargs, varkw):
   rec = ', '.join('%s=%s' % (n, n) for n in names)
   if varargs:
     rec += ', args=args'
   if varkw:
     rec += ', kw=kw'
-  ns = {'REC': REC}
-  exec('def %s(%s):\n  REC.append(dict(%s))\n  return "ret"\n' % (name, sig, rec), ns)  # pylint: disable=exec-used
+  ns = {'REC': REC, 'SCRIBBLE': _scribble}
+  exec('def %s(%s):\n  REC.append(dict(%s))\n  SCRIBBLE()\n  return "ret"\n' % (name, sig, rec), ns)  # pylint: disable=exec-used
   fn = ns[name]
   fn.__module__ = 'c01probes'
   return fn
@@ -91,11 +98,11 @@ def _mk_cls(name, sig, names, varargs, varkw, how):
     rec += ', args=args'
   if varkw:
     rec += ', kw=kw'
-  ns = {'REC': REC}
+  ns = {'REC': REC, 'SCRIBBLE': _scribble}
   if how == 'init':
-    src = 'class %s:\n  def __init__(self, %s):\n    REC.append(dict(%s))\n' % (name, sig, rec)
+    src = 'class %s:\n  def __init__(self, %s):\n    REC.append(dict(%s))\n    SCRIBBLE()\n' % (name, sig, rec)
   else:
-    src = ('class %s:\n  def __new__(cls, %s):\n    REC.append(dict(%s))\n    return super().__new__(cls)\n' %
+    src = ('class %s:\n  def __new__(cls, %s):\n    REC.append(dict(%s))\n    SCRIBBLE()\n    return super().__new__(cls)\n' %
            (name, sig, rec))
   exec(src, ns)  # pylint: disable=exec-used
   c = ns[name]
